@@ -94,10 +94,16 @@ def run(opts):
         if not g.gen:
             raise vf.ToolingError("no behaviours generated")
         every = chk.pick(97, 211)
-        scripts = [gen_to_script(b, 1 if (i % every == 0) else None) for i, b in enumerate(g.gen)]
+        beh = list(g.gen)
+        chk.notes["tlc_behaviours_generated"] = len(beh)
+        if not chk.quick and len(beh) > 20000:
+            # the thorough family (all sequences of 5 write sessions) is sampled: 20000 of them per run, chosen by the seed
+            rng.shuffle(beh)
+            beh = beh[:20000]
+        scripts = [gen_to_script(b, 1 if (i % every == 0) else None) for i, b in enumerate(beh)]
         chk.notes["tlc_behaviours"] = len(scripts)
         # ---- seeded random histories beyond the exhaustive bound
-        nrand = chk.pick(120, 4000)
+        nrand = chk.pick(120, 2000)
         for i in range(nrand):
             scripts.append(random_script(rng, chk.pick(8, 12), chk.pick(6, 10), big=(i % 3 == 0)))
         chk.notes["random_histories"] = nrand
